@@ -174,6 +174,20 @@ fn run<E: Enf>(mk: impl Fn(&tokio::runtime::Runtime) -> E, threads: usize, write
                         let _ = w.delete_link("zz_user", "zz_role", None);
                     }
                 }
+                if handle_mode == 3 {
+                    // a LONG critical section through the handle: unrelated links added under ONE write guard that is kept
+                    // for 30 ms. A concurrent enforce must wait for it (its decision is still a serial one); it must not
+                    // give up and decide without the role graph
+                    {
+                        let mut w = rm.write();
+                        w.add_link("zz_user", "zz_role", None);
+                        w.add_link("zz_user2", "zz_role", None);
+                        std::thread::sleep(Duration::from_millis(30));
+                        let _ = w.delete_link("zz_user", "zz_role", None);
+                        let _ = w.delete_link("zz_user2", "zz_role", None);
+                    }
+                    std::thread::sleep(Duration::from_millis(2));
+                }
                 n += 1;
                 if n % 64 == 0 {
                     std::thread::yield_now();
